@@ -21,30 +21,27 @@ use crate::error::{Error, ErrorImpl};
 
 use std::{
     collections::VecDeque,
-    ffi::{CString, OsStr, OsString},
+    ffi::{CString, NulError, OsStr, OsString},
     os::unix::ffi::OsStrExt,
     path::Path,
 };
 
 pub(crate) trait ToCString {
-    /// Convert to a CStr.
-    fn to_c_string(&self) -> CString;
+    /// Convert to a CString. Like the path conversions done by rustix (and the
+    /// kernel's own view of a C string argument), a path with an interior NUL
+    /// byte is an error -- it must never be silently truncated, because every
+    /// check libpathrs did on the path looked at the whole string.
+    fn to_c_string(&self) -> Result<CString, NulError>;
 }
 
 impl ToCString for OsStr {
-    fn to_c_string(&self) -> CString {
-        let filtered: Vec<_> = self
-            .as_bytes()
-            .iter()
-            .copied()
-            .take_while(|&c| c != b'\0')
-            .collect();
-        CString::new(filtered).expect("nul bytes should've been excluded")
+    fn to_c_string(&self) -> Result<CString, NulError> {
+        CString::new(self.as_bytes())
     }
 }
 
 impl ToCString for Path {
-    fn to_c_string(&self) -> CString {
+    fn to_c_string(&self) -> Result<CString, NulError> {
         self.as_os_str().to_c_string()
     }
 }
